@@ -213,7 +213,7 @@ type ModelRun struct {
 // modelRun syncs the world on a fresh replica and compares every block with
 // the model. Must be called inside a bubble. stopAtFirst ends at the first
 // block with a mismatch (later blocks would only echo it).
-func modelRun(env *Env, w *world.World, opt model.Options, restarts map[uint32]bool) (*ModelRun, error) {
+func modelRun(env *Env, w *world.World, opt model.Options, restarts map[uint32]bool, atTip ...func(r *sim.Replica, mr *ModelRun)) (*ModelRun, error) {
 	mr := &ModelRun{}
 	opt.Restarts = restarts
 	l := model.New(w, opt)
@@ -292,6 +292,11 @@ func modelRun(env *Env, w *world.World, opt model.Options, restarts map[uint32]b
 	mr.Exit = r.Exit
 	mr.Errs = sim.TakeErrors()
 	env.Stats.Blocks += r.Commits
+	if ok && !stop && cerr == nil && r.Node != nil {
+		for _, f := range atTip {
+			f(r, mr)
+		}
+	}
 	r.Stop()
 	return mr, cerr
 }
